@@ -230,5 +230,5 @@ def plan(tier, seed):
 
 
 def finish(acc, tier, seed):
-    need = 25000 if tier == "quick" else 400000
+    need = 15000 if tier == "quick" else 400000
     return [f"predicate ran on only {acc.evals} raised errors (< {need})"] if acc.evals < need else []
